@@ -63,7 +63,10 @@ class TimeoutFamily:
             if answer_at == i:
                 ops += [{'op': 'act', 'target': {'pid': 'p1', 'key': 'k1', 'state': 'interrupted'}, 'action': rng.choice(['next', 'next', 'skip', 'error', 'submit', 'remove']), 'options': {'ecode': 'e1'}}, {'op': 'quiesce'}, {'op': 'snapshot', 'level': snap}]
             ops += [{'op': 'advance_to', 'target': target, 'ms': t}]
-            if opts.get('evict', True) and rng.random() < 0.25:
+            if opts.get('store') == 'sqlite':
+                if rng.random() < 0.4:
+                    ops += [{'op': 'restart'}, {'op': 'quiesce'}]     # a new engine on the same database takes over before the tick
+            elif opts.get('evict', True) and rng.random() < 0.25:
                 ops.append({'op': 'evict'})          # the process is not cached when the tick comes
             ops += [{'op': 'tick'}, {'op': 'snapshot', 'level': snap}]
         if answer_at == len(times):
@@ -74,7 +77,10 @@ class TimeoutFamily:
         rt = rng.choice([{'flavor': 'current'}, {'flavor': 'current', 'chaos': {'max_yields': 3, 'seed': rng.randrange(1, 1 << 40)}}, {'flavor': 'multi', 'workers': 2}])
         if raced_at is not None:
             rt = {'flavor': 'multi', 'workers': 2, 'chaos': {'max_yields': 2, 'pause_us': rng.choice([0, 30, 100, 300]), 'seed': rng.randrange(1, 1 << 40)}}
-        sc = {'id': '', 'family': 'timeout', 'sched': rt['flavor'] + ('-raced' if raced_at is not None else ''), 'runtime': rt, 'engine': {'store': 'mem', 'keep_processes': True}, 'models': [json.dumps(wf)], 'responder': {'rules': []}, 'ops': ops}
+        sc = {'id': '', 'family': 'timeout', 'sched': rt['flavor'] + ('-raced' if raced_at is not None else ''), 'runtime': rt, 'engine': {'store': opts.get('store', 'mem'), 'keep_processes': True}, 'models': [json.dumps(wf)], 'responder': {'rules': []}, 'ops': ops}
+        if opts.get('store') == 'sqlite':
+            sc['watchdog_ms'] = 90000
+            sc['sched'] += '-sqlite'
         return {'scenarios': [sc], 'meta': {'wf': wf, 'level': level, 'ons': ons, 'times': times, 'answer_at': answer_at, 'nested': nested}, 'digest': digest([wf, times, answer_at]), 'nontrivial': True}
 
     def judge(self, c, opts, obs):
@@ -159,8 +165,8 @@ class TimeoutFamily:
                         elif must:
                             cached = True
                             for op_ in sc['ops'][:o['i']]:
-                                if op_['op'] == 'evict':
-                                    cached = False
+                                if op_['op'] in ('evict', 'restart'):
+                                    cached = False          # a new engine does not load running processes by itself either
                                 elif op_['op'] in ('act', 'advance_to'):
                                     cached = True       # looking the task up / acting on it reloads the process
                             out.append(V('C19', 'not-fired-when-due', m['level'] + ('' if cached else ':process-not-cached-at-tick'), f"rule {on} did not fire at a tick {tb - s} ms after the task opened (limit {L} ms, task {task['state']})", scenario=sid))
